@@ -17,7 +17,7 @@ except Exception:
     meta = {}
 conf = {}
 if suite:
-    env = dict(os.environ, CARGO_TARGET_DIR=os.path.join(wt, "target"), CARGO_NET_OFFLINE="true")
+    env = dict(os.environ, CARGO_TARGET_DIR=os.path.join(wt, "target"), CARGO_NET_OFFLINE="true", CARGO_INCREMENTAL="0", CARGO_PROFILE_DEV_DEBUG="0", CARGO_PROFILE_TEST_DEBUG="0")
     def run(c):
         if c and c[0] == "cargo":
             c = ["unshare", "-n", "sh", "-c", "ip link set lo up; exec \"$@\"", "sh"] + list(c)
